@@ -2074,6 +2074,13 @@ def planetary_conjunction(alpha1_list, delta1_list, alpha2_list, delta2_list):
     # Compute lists with differences between right ascensions and declinations
     # for objects #1 and #2
     dalpha = [alpha1_list[i] - alpha2_list[i] for i in range(n_entries)]
+    # A difference of right ascensions is taken the short way round: 359.9 and
+    # 0.1 degrees are 0.2 degrees apart, however each of them is written
+    for i in range(n_entries):
+        if dalpha[i] > 180.0:
+            dalpha[i] = dalpha[i] - 360.0
+        elif dalpha[i] < -180.0:
+            dalpha[i] = dalpha[i] + 360.0
     ddelta = [delta1_list[i] - delta2_list[i] for i in range(n_entries)]
     # Build the interpolation objects
     i_alpha = Interpolation(n_list, dalpha)
